@@ -119,17 +119,17 @@ Proof.
   eexists; reflexivity.
 Qed.
 
-Lemma bound_step_fixed p i v a st bs i' r : bound_step R Rltb Fixed p i v a st bs = Stop i' r -> r = true.
+Lemma bound_step_fixed vr p i v a st bs i' r : vr <> AsFound -> bound_step R Rltb vr p i v a st bs = Stop i' r -> r = true.
 Proof.
-  unfold bound_step. destruct (v_bounds v) as [b|]; [destruct (oob R Rltb b a); [destruct p|]|]; try discriminate.
-  intros H; inversion H; reflexivity.
+  intros Hvr. unfold bound_step. destruct (v_bounds v) as [b|]; [destruct (oob R Rltb b a); [destruct p|]|]; try discriminate.
+  intros H; inversion H. destruct vr; [contradiction | reflexivity | reflexivity].
 Qed.
 
-Lemma scan_fixed_restores p k vs args st bs i r : scan_bounds R Rltb Fixed p k vs args st bs = Stop i r -> r = true.
+Lemma scan_fixed_restores vr p k vs args st bs i r : vr <> AsFound -> scan_bounds R Rltb vr p k vs args st bs = Stop i r -> r = true.
 Proof.
-  revert k args st bs; induction vs as [|v vs IH]; intros k args st bs; simpl; try discriminate.
+  intros Hvr. revert k args st bs; induction vs as [|v vs IH]; intros k args st bs; simpl; try discriminate.
   destruct args as [|a args]; try discriminate.
-  destruct (bound_step R Rltb Fixed p k v a st bs) eqn:B.
+  destruct (bound_step R Rltb vr p k v a st bs) eqn:B.
   - intros H; inversion H; subst. eapply bound_step_fixed; eauto.
   - apply IH.
 Qed.
@@ -151,17 +151,20 @@ Proof.
 Qed.
 
 (* ---- theorems about `generic` ---------------------------------------------------------------------------- *)
-Lemma errno_fixed d args nargs p e0 body : errno_after (generic R Rltb Fixed d args nargs p e0 body) = e0.
+Lemma errno_repaired vr d args nargs p e0 body : vr <> AsFound -> errno_after (generic R Rltb vr d args nargs p e0 body) = e0.
 Proof.
-  unfold generic. destruct (negb (Nat.eqb nargs (length (inputs d)))); simpl; auto.
+  intros Hvr. unfold generic. destruct (negb (Nat.eqb nargs (length (inputs d)))); simpl; auto.
   destruct (first_oob R Rltb v_phys 1 (inputs d) args); simpl; auto.
-  destruct (scan_bounds R Rltb Fixed p 1 (inputs d) args 0 0) eqn:HS.
-  - apply scan_fixed_restores in HS. subst. reflexivity.
+  destruct (scan_bounds R Rltb vr p 1 (inputs d) args 0 0) eqn:HS.
+  - apply scan_fixed_restores in HS; auto. subst. reflexivity.
   - destruct body; simpl; auto. destruct (oob_opt R Rltb (v_phys (output d)) v); simpl; auto.
-    destruct (bound_step R Rltb Fixed p (S (length (inputs d))) (output d) v st bs) eqn:B.
-    + apply bound_step_fixed in B; subst; reflexivity.
+    destruct (bound_step R Rltb vr p (S (length (inputs d))) (output d) v st bs) eqn:B.
+    + apply bound_step_fixed in B; auto; subst; reflexivity.
     + reflexivity.
 Qed.
+
+Lemma errno_fixed d args nargs p e0 body : errno_after (generic R Rltb Fixed d args nargs p e0 body) = e0.
+Proof. apply errno_repaired; discriminate. Qed.
 
 Lemma errno_asfound_refuted :
   exists d args nargs p e0 body, errno_after (generic R Rltb AsFound d args nargs p e0 body) <> e0.
@@ -240,7 +243,7 @@ Lemma none_ignores_bounds vr d args e0 x : no_viol v_phys d args -> ~ outside_op
 Proof.
   intros Hp Ho. apply no_viol_oob in Hp. apply oob_opt_false in Ho.
   unfold generic. rewrite Nat.eqb_refl. simpl. rewrite Hp, scan_none. simpl. rewrite Ho.
-  unfold bound_step. destruct (v_bounds (output d)) as [b|]; [destruct (oob R Rltb b (Fin x))|]; unfold finish; simpl; auto.
+  unfold bound_step. destruct (v_bounds (output d)) as [b|]; [destruct (oob R Rltb b (Fin x))|]; destruct vr; unfold finish; simpl; auto.
 Qed.
 
 (* everything inside (bounds inclusive): status 0 under every policy *)
@@ -257,7 +260,7 @@ Proof.
     - destruct (scan_warning vr 1 (inputs d) args 0 0) as (st & bs & E & H1 & _). destruct (H1 Hb) as (-> & ->). exact E.
     - pose proof (scan_strict vr 1 (inputs d) args 0 0) as HS. rewrite Hb in HS. exact HS. }
   rewrite HS. simpl. rewrite Ho. unfold bound_step. unfold oob_opt in Hob.
-  destruct (v_bounds (output d)) as [b|]; [rewrite Hob|]; unfold finish; simpl; auto.
+  destruct (v_bounds (output d)) as [b|]; [rewrite Hob|]; destruct vr; unfold finish; simpl; auto.
 Qed.
 
 (* status 1 only under Warning, with a positive rank and the computed value returned *)
@@ -280,7 +283,7 @@ Proof.
     { unfold bound_step. destruct (v_bounds (output d)) as [b|]; [destruct (oob R Rltb b v)|]; eauto. }
     destruct G as (st' & bs' & G). rewrite G in *. unfold finish in *; simpl in *.
     destruct (Z.eqb el 0) eqn:E; destruct v; simpl in *; try discriminate.
-    apply Z.eqb_eq in E; subst. exists v. auto.
+    apply Z.eqb_eq in E; subst. exists v. split; auto. destruct vr; auto.
   - pose proof (scan_strict vr 1 (inputs d) args 0 0) as HS.
     destruct (first_oob R Rltb v_bounds 1 (inputs d) args).
     + destruct HS as (r & ->). simpl. discriminate.
@@ -301,7 +304,7 @@ Proof.
   destruct (scan_warning vr 1 (inputs d) args 0 0) as (st & bs & -> & _ & H2).
   destruct H2 as (-> & Hbs); [rewrite Hb; discriminate | lia |].
   simpl. rewrite Ho. unfold bound_step.
-  destruct (v_bounds (output d)) as [b|]; [destruct (oob R Rltb b (Fin x))|]; unfold finish; simpl; repeat split; auto; lia.
+  destruct (v_bounds (output d)) as [b|]; [destruct (oob R Rltb b (Fin x))|]; destruct vr; unfold finish; simpl; repeat split; auto; lia.
 Qed.
 
 (* errno left by the law / non-finite value, when every check passed *)
@@ -362,4 +365,284 @@ Proof.
     destruct (first_oob R Rltb v_bounds 1 (inputs d) args) as [i|].
     + split; [intros H; lia|]. intros _. destruct HS as (r & ->). simpl. lia.
     + split; intros H; lia.
+Qed.
+
+(* ==== extensions ============================================================================================== *)
+(* ---- value returned with a negative status ------------------------------------------------------------------ *)
+Lemma ret_documented d args nargs p e0 body :
+  status (generic R Rltb Documented d args nargs p e0 body) < 0 -> ret (generic R Rltb Documented d args nargs p e0 body) = NaN.
+Proof.
+  unfold generic. destruct (negb (Nat.eqb nargs (length (inputs d)))); simpl; auto.
+  destruct (first_oob R Rltb v_phys 1 (inputs d) args); simpl; auto.
+  destruct (scan_bounds R Rltb Documented p 1 (inputs d) args 0 0); simpl; auto.
+  destruct body; simpl; auto. destruct (oob_opt R Rltb (v_phys (output d)) v); simpl; auto.
+  destruct (bound_step R Rltb Documented p (S (length (inputs d))) (output d) v st bs); simpl; auto.
+  intros H. apply Z.ltb_lt in H. rewrite H. reflexivity.
+Qed.
+
+Lemma ret_fixed_refuted :
+  exists d args nargs p e0 body, status (generic R Rltb Fixed d args nargs p e0 body) < 0 /\
+                                 ret (generic R Rltb Fixed d args nargs p e0 body) <> NaN.
+Proof.
+  exists (Decl [] (Var None None)), [], 0%nat, PNone, 0, (Returns (Fin 1%R) 33).
+  cbn. split; [lia | discriminate].
+Qed.
+
+Lemma bound_step_fixed_documented p i v a st bs :
+  bound_step R Rltb Fixed p i v a st bs = bound_step R Rltb Documented p i v a st bs.
+Proof.
+  unfold bound_step. destruct (v_bounds v) as [b|]; [destruct (oob R Rltb b a); [destruct p|]|]; try reflexivity.
+Qed.
+
+Lemma scan_fixed_documented p k vs args st bs :
+  scan_bounds R Rltb Fixed p k vs args st bs = scan_bounds R Rltb Documented p k vs args st bs.
+Proof.
+  revert k args st bs; induction vs as [|v vs IH]; intros k args st bs; simpl; auto.
+  destruct args as [|a args]; auto. rewrite bound_step_fixed_documented.
+  destruct (bound_step R Rltb Documented p k v a st bs); auto.
+Qed.
+
+Lemma ret_variants_agree d args nargs p e0 body :
+  same_but_failed_ret (generic R Rltb Fixed d args nargs p e0 body) (generic R Rltb Documented d args nargs p e0 body).
+Proof.
+  unfold same_but_failed_ret, generic. destruct (negb (Nat.eqb nargs (length (inputs d)))); simpl; [repeat split; auto|].
+  destruct (first_oob R Rltb v_phys 1 (inputs d) args); simpl; [repeat split; auto|].
+  rewrite scan_fixed_documented.
+  destruct (scan_bounds R Rltb Documented p 1 (inputs d) args 0 0); simpl; [repeat split; auto|].
+  destruct body; simpl; [|repeat split; auto]. destruct (oob_opt R Rltb (v_phys (output d)) v); simpl; [repeat split; auto|].
+  rewrite bound_step_fixed_documented.
+  destruct (bound_step R Rltb Documented p (S (length (inputs d))) (output d) v st bs); simpl; [repeat split; auto|].
+  repeat split; auto. intros H. apply Z.ltb_ge in H. rewrite H. reflexivity.
+Qed.
+
+(* ---- NaN arguments pass every test of the emitted code (comparisons with NaN are false) ------------------- *)
+Lemma nan_passes (b : bounds R) : oob R Rltb b NaN = false.
+Proof. destruct b; reflexivity. Qed.
+
+(* ---- status range: needed to show that -6 only comes from the parameters file ------------------------------- *)
+Lemma bound_step_status vr p i v a st bs st' bs' :
+  bound_step R Rltb vr p i v a st bs = Cont st' bs' -> st = 0 \/ st = 1 -> st' = 0 \/ st' = 1.
+Proof.
+  unfold bound_step. destruct (v_bounds v) as [b|]; [destruct (oob R Rltb b a); [destruct p|]|];
+    intros H; inversion H; subst; auto.
+Qed.
+
+Lemma scan_status vr p k vs args st bs st' bs' :
+  scan_bounds R Rltb vr p k vs args st bs = Cont st' bs' -> st = 0 \/ st = 1 -> st' = 0 \/ st' = 1.
+Proof.
+  revert k args st bs; induction vs as [|v vs IH]; intros k args st bs; simpl.
+  - intros H; inversion H; subst; auto.
+  - destruct args as [|a args]; [intros H; inversion H; subst; auto|].
+    destruct (bound_step R Rltb vr p k v a st bs) eqn:B; [discriminate|].
+    intros H Hst. eapply IH; eauto. eapply bound_step_status; eauto.
+Qed.
+
+Lemma status_range vr d args nargs p e0 body :
+  -5 <= status (generic R Rltb vr d args nargs p e0 body) <= 1.
+Proof.
+  unfold generic. destruct (negb (Nat.eqb nargs (length (inputs d)))); simpl; [lia|].
+  destruct (first_oob R Rltb v_phys 1 (inputs d) args); simpl; [lia|].
+  destruct (scan_bounds R Rltb vr p 1 (inputs d) args 0 0) eqn:HS; simpl; [lia|].
+  apply scan_status in HS; auto.
+  destruct body as [v el|]; simpl; [|lia]. destruct (oob_opt R Rltb (v_phys (output d)) v); simpl; [lia|].
+  destruct (bound_step R Rltb vr p (S (length (inputs d))) (output d) v st bs) eqn:B; simpl; [lia|].
+  apply bound_step_status in B; auto.
+  destruct (Z.eqb el 0), (isfinite R v); lia.
+Qed.
+
+(* ---- DSL options ------------------------------------------------------------------------------------------ *)
+Lemma pline_bad l : pline_ok l = false <-> bad_line l.
+Proof.
+  unfold bad_line. destruct l as [| |k c|]; simpl; split; try discriminate; auto.
+  - intros [H|(k & c & H & _)]; discriminate.
+  - intros [H|(k & c & H & _)]; discriminate.
+  - intros H. right. exists k, c. split; auto. destruct k, c; auto; discriminate.
+  - intros [H|(k' & c' & H & [-> | ->])]; [discriminate| |]; inversion H; subst; auto. apply andb_false_r.
+Qed.
+
+Lemma handler_not_ok o pf :
+  handler_ok o pf = false <-> reads_file o = true /\ exists ls, pf = Some ls /\ exists l, In l ls /\ bad_line l.
+Proof.
+  unfold handler_ok. destruct pf as [ls|].
+  - rewrite orb_false_iff, negb_false_iff. split.
+    + intros (Hr & Hf). split; auto. exists ls. split; auto.
+      induction ls as [|l ls IH]; simpl in Hf; [discriminate|].
+      apply andb_false_iff in Hf. destruct Hf as [Hf|Hf].
+      * exists l. split; [left; auto | now apply pline_bad].
+      * destruct (IH Hf) as (l' & Hin & Hb). exists l'. split; [right; auto | auto].
+    + intros (Hr & ls' & E & l & Hin & Hb). inversion E; subst ls'. split; auto.
+      induction ls as [|l' ls IH]; simpl in *; [contradiction|].
+      apply andb_false_iff. destruct Hin as [->|Hin]; [left; now apply pline_bad | right; auto].
+  - split; [discriminate | intros (_ & ls & E & _); discriminate].
+Qed.
+
+Lemma opt_minus6 vr o pf d args p e0 body : o_nochecks o = false -> handler_ok o pf = false ->
+  generic_opt R Rltb vr o pf d args (length (inputs d)) p e0 body = Res (-6) 0 0 NaN e0.
+Proof. intros Hn Hh. unfold generic_opt. rewrite Hn, Hh, Nat.eqb_refl. reflexivity. Qed.
+
+Lemma opt_minus6_only vr o pf d args nargs p e0 body :
+  status (generic_opt R Rltb vr o pf d args nargs p e0 body) = -6 ->
+  o_nochecks o = false /\ nargs = length (inputs d) /\ handler_ok o pf = false.
+Proof.
+  unfold generic_opt. destruct (o_nochecks o).
+  - destruct body; simpl; discriminate.
+  - destruct (Nat.eqb nargs (length (inputs d))) eqn:E; simpl.
+    + destruct (handler_ok o pf); simpl.
+      * intros H. pose proof (status_range vr d args nargs p e0 body). lia.
+      * intros _. apply Nat.eqb_eq in E. auto.
+    + intros H. pose proof (status_range vr d args nargs p e0 body). lia.
+Qed.
+
+Lemma opt_neutral vr o pf d args nargs p e0 body : o_nochecks o = false -> handler_ok o pf = true ->
+  generic_opt R Rltb vr o pf d args nargs p e0 body = generic R Rltb vr d args nargs p e0 body.
+Proof. intros Hn Hh. unfold generic_opt. rewrite Hn, Hh. simpl. rewrite andb_false_r. reflexivity. Qed.
+
+Lemma handler_ok_without_file o pf : reads_file o = false -> handler_ok o pf = true.
+Proof. intros H. unfold handler_ok. destruct pf; auto. rewrite H. reflexivity. Qed.
+
+Lemma opt_nochecks vr o pf d args nargs p e0 body : o_nochecks o = true ->
+  let g := generic_opt R Rltb vr o pf d args nargs p e0 body in
+  bounds_status g = 0 /\ c_error_number g = 0 /\
+  match body with Throws => status g = -2 /\ ret g = NaN | Returns v _ => status g = 0 /\ ret g = v end.
+Proof. intros Hn. unfold generic_opt. rewrite Hn. destruct body; simpl; auto. Qed.
+
+Lemma opt_errno vr o pf d args nargs p e0 body : vr <> AsFound -> o_nochecks o = false ->
+  errno_after (generic_opt R Rltb vr o pf d args nargs p e0 body) = e0.
+Proof.
+  intros Hvr Hn. unfold generic_opt. rewrite Hn.
+  destruct (Nat.eqb nargs (length (inputs d)) && negb (handler_ok o pf)); [reflexivity | now apply errno_repaired].
+Qed.
+
+(* ---- c++ interface ---------------------------------------------------------------------------------------- *)
+Lemma all_oob_in sel k vs args i :
+  In i (all_oob R Rltb sel k vs args) <-> exists j, i = (k + j)%nat /\ viol_at sel vs args j.
+Proof.
+  revert k args; induction vs as [|v vs IH]; intros k args; simpl.
+  - split; [tauto | intros (j & _ & (w & a & H & _)); destruct j; discriminate].
+  - destruct args as [|a args]; simpl.
+    + split; [tauto | intros (j & _ & (w & a & _ & H & _)); destruct j; discriminate].
+    + destruct (oob_opt R Rltb (sel v) a) eqn:E.
+      * simpl. rewrite IH. split.
+        -- intros [<- | (j & -> & (w & b & H1 & H2 & H3))].
+           ++ exists 0%nat. split; [lia|]. exists v, a. simpl. repeat split; auto. now apply oob_opt_outside.
+           ++ exists (S j). split; [lia|]. exists w, b; simpl; auto.
+        -- intros (j & -> & (w & b & H1 & H2 & H3)). destruct j; simpl in *.
+           ++ left; lia.
+           ++ right. exists j. split; [lia|]. exists w, b; auto.
+      * rewrite IH. apply oob_opt_false in E. split.
+        -- intros (j & -> & (w & b & H1 & H2 & H3)). exists (S j). split; [lia|]. exists w, b; simpl; auto.
+        -- intros (j & -> & (w & b & H1 & H2 & H3)). destruct j; simpl in *.
+           ++ inversion H1; inversion H2; subst; contradiction.
+           ++ exists j. split; [lia|]. exists w, b; auto.
+Qed.
+
+Lemma all_oob_ranks sel d args i : In i (all_oob R Rltb sel 1 (inputs d) args) <-> viol_rank sel d args i.
+Proof.
+  rewrite all_oob_in. unfold viol_rank. split.
+  - intros (j & -> & H). split; [lia|]. replace (1 + j - 1)%nat with j by lia. exact H.
+  - intros (Hi & H). exists (i - 1)%nat. split; [lia | exact H].
+Qed.
+
+Lemma cxx_cb_physical d args p i : first_viol v_phys d args i -> cxx_checkBounds R Rltb false d args p = CbThrow i true.
+Proof. intros H. apply first_viol_oob in H. unfold cxx_checkBounds. rewrite H. reflexivity. Qed.
+
+Lemma cxx_cb_strict d args i : no_viol v_phys d args -> first_viol v_bounds d args i ->
+  cxx_checkBounds R Rltb false d args PStrict = CbThrow i false.
+Proof.
+  intros Hp H. apply no_viol_oob in Hp. apply first_viol_oob in H. unfold cxx_checkBounds. rewrite Hp, H. reflexivity.
+Qed.
+
+Lemma cxx_cb_warning d args : no_viol v_phys d args ->
+  exists w, cxx_checkBounds R Rltb false d args PWarning = CbPass w /\ forall i, In i w <-> viol_rank v_bounds d args i.
+Proof.
+  intros Hp. apply no_viol_oob in Hp. unfold cxx_checkBounds. rewrite Hp.
+  eexists. split; [reflexivity|]. intros i. apply all_oob_ranks.
+Qed.
+
+Lemma cxx_cb_none d args : no_viol v_phys d args -> cxx_checkBounds R Rltb false d args PNone = CbPass [].
+Proof. intros Hp. apply no_viol_oob in Hp. unfold cxx_checkBounds. rewrite Hp. reflexivity. Qed.
+
+Lemma cxx_cb_inside d args p : no_viol v_phys d args -> no_viol v_bounds d args ->
+  cxx_checkBounds R Rltb false d args p = CbPass [].
+Proof.
+  intros Hp Hb. pose proof Hb as Hb'. apply no_viol_oob in Hp. apply no_viol_oob in Hb. unfold cxx_checkBounds. rewrite Hp.
+  destruct p; auto; [|rewrite Hb; reflexivity].
+  f_equal. destruct (all_oob R Rltb v_bounds 1 (inputs d) args) as [|i l] eqn:E; auto.
+  exfalso. assert (Hin : In i (all_oob R Rltb v_bounds 1 (inputs d) args)) by (rewrite E; left; auto).
+  apply all_oob_ranks in Hin. destruct Hin as (_ & Hv). exact (Hb' _ Hv).
+Qed.
+
+(* what makes checkBounds throw makes the generic interface fail with the same rank *)
+Lemma cxx_cb_generic vr d args p e0 body i ph : cxx_checkBounds R Rltb false d args p = CbThrow i ph ->
+  let g := generic R Rltb vr d args (length (inputs d)) p e0 body in
+  status g = -1 /\ bounds_status g = - Z.of_nat i /\ ret g = NaN.
+Proof.
+  unfold cxx_checkBounds, generic. rewrite Nat.eqb_refl. simpl.
+  destruct (first_oob R Rltb v_phys 1 (inputs d) args) as [j|].
+  - intros H; inversion H; subst. simpl. auto.
+  - destruct p; try discriminate.
+    pose proof (scan_strict vr 1 (inputs d) args 0 0) as HS.
+    destruct (first_oob R Rltb v_bounds 1 (inputs d) args) as [j|]; [|discriminate].
+    intros H; inversion H; subst. destruct HS as (r & ->). simpl. auto.
+Qed.
+
+(* ... and is what the C interface's _checkBounds reports *)
+Lemma cxx_cb_c d args p :
+  match cxx_checkBounds R Rltb false d args p with
+  | CbThrow i true => c_checkBounds R Rltb d args = - Z.of_nat i
+  | CbThrow i false => c_checkBounds R Rltb d args = Z.of_nat i /\ p = PStrict
+  | CbPass w => 0 <= c_checkBounds R Rltb d args /\ forall i, In i w -> p = PWarning
+  end.
+Proof.
+  unfold cxx_checkBounds, c_checkBounds.
+  destruct (first_oob R Rltb v_phys 1 (inputs d) args) as [j|]; [reflexivity|].
+  destruct p; destruct (first_oob R Rltb v_bounds 1 (inputs d) args) as [j|]; simpl; try (split; [lia | intros i []]); auto;
+    split; try lia; auto.
+Qed.
+
+Lemma cxx_call_inside d args p x : no_viol v_phys d args -> no_viol v_bounds d args ->
+  ~ outside_opt (v_phys (output d)) (Fin x) -> ~ outside_opt (v_bounds (output d)) (Fin x) ->
+  cxx_call R Rltb false d args p (Returns (Fin x) 0) = XValue (Fin x) [].
+Proof.
+  intros Hp Hb Ho Hob. apply oob_opt_false in Ho. apply oob_opt_false in Hob.
+  unfold cxx_call. rewrite (cxx_cb_inside d args p Hp Hb). simpl. rewrite andb_false_r. rewrite Ho, Hob. reflexivity.
+Qed.
+
+Lemma cxx_call_checkBounds d args p body i ph : cxx_checkBounds R Rltb false d args p = CbThrow i ph ->
+  cxx_call R Rltb false d args p body = XRange i ph.
+Proof. intros H. unfold cxx_call. rewrite H. reflexivity. Qed.
+
+(* the output: physical bounds under every policy, standard bounds under Strict; errno / non-finite values first *)
+Lemma cxx_call_output d args p w x : cxx_checkBounds R Rltb false d args p = CbPass w ->
+  let r := cxx_call R Rltb false d args p (Returns (Fin x) 0) in
+  (outside_opt (v_phys (output d)) (Fin x) -> r = XRange (S (length (inputs d))) true) /\
+  (~ outside_opt (v_phys (output d)) (Fin x) -> outside_opt (v_bounds (output d)) (Fin x) ->
+     match p with PStrict => r = XRange (S (length (inputs d))) false
+                | PWarning => r = XValue (Fin x) (w ++ [S (length (inputs d))])
+                | PNone => r = XValue (Fin x) w end) /\
+  (~ outside_opt (v_phys (output d)) (Fin x) -> ~ outside_opt (v_bounds (output d)) (Fin x) -> r = XValue (Fin x) w).
+Proof.
+  intros H. unfold cxx_call. rewrite H. simpl. rewrite andb_false_r. repeat split.
+  - intros Ho. apply oob_opt_outside in Ho. rewrite Ho. reflexivity.
+  - intros Ho Hob. apply oob_opt_false in Ho. apply oob_opt_outside in Hob. rewrite Ho, Hob. destruct p; reflexivity.
+  - intros Ho Hob. apply oob_opt_false in Ho. apply oob_opt_false in Hob. rewrite Ho, Hob. reflexivity.
+Qed.
+
+(* a value is returned only when nothing went wrong *)
+Lemma cxx_call_value d args p body v w : cxx_call R Rltb false d args p body = XValue v w ->
+  exists el w0, body = Returns v el /\ cxx_checkBounds R Rltb false d args p = CbPass w0 /\
+                ~ outside_opt (v_phys (output d)) v /\ (p = PStrict -> ~ outside_opt (v_bounds (output d)) v) /\
+                ((0 < length (inputs d))%nat -> el = 0 /\ isfinite R v = true).
+Proof.
+  unfold cxx_call. destruct (cxx_checkBounds R Rltb false d args p) as [i ph|w0]; [discriminate|].
+  destruct body as [v' el|]; [|discriminate]. simpl.
+  destruct (Nat.ltb 0 (length (inputs d)) && (negb (Z.eqb el 0) || negb (isfinite R v'))) eqn:E; [discriminate|].
+  destruct (oob_opt R Rltb (v_phys (output d)) v') eqn:Ho; [discriminate|].
+  intros HH.
+  assert (Hv : v' = v).
+  { destruct (oob_opt R Rltb (v_bounds (output d)) v'); [destruct p; try discriminate|]; inversion HH; auto. }
+  subst v'. exists el, w0. split; auto. split; auto. split; [now apply oob_opt_false|]. split.
+  - intros ->. destruct (oob_opt R Rltb (v_bounds (output d)) v) eqn:Hob; [discriminate HH | now apply oob_opt_false].
+  - intros Hn. apply Nat.ltb_lt in Hn. rewrite Hn in E. simpl in E. apply orb_false_iff in E. destruct E as (E1 & E2).
+    apply negb_false_iff in E1. apply negb_false_iff in E2. apply Z.eqb_eq in E1. auto.
 Qed.
